@@ -491,12 +491,12 @@ _NOCONST = object()
 
 class AV(object):
     __slots__ = ("kind", "dtype", "origin", "shape", "sym", "alg", "sign", "mono", "const", "expo",
-                 "items", "elem", "obj", "tags", "indef", "dmust", "dmay", "dvals", "ref", "note", "f0")
+                 "items", "elem", "obj", "tags", "indef", "dmust", "dmay", "dvals", "ref", "note", "f0", "ext")
 
     def __init__(self, kind=K_TOP, dtype="top", origin=frozenset(), shape=None, sym=None, alg=None,
                  sign=S_ANY, mono=frozenset(), const=_NOCONST, expo=None, items=None, elem=None, obj=None,
                  tags=frozenset(), indef=False, dmust=None, dmay=None, dvals=None, ref=None, note=None,
-                 f0=False):
+                 f0=False, ext=None):
         self.kind = kind
         self.dtype = dtype
         self.origin = origin
@@ -518,6 +518,7 @@ class AV(object):
         self.ref = ref  # resolution tuple for func/class/module values
         self.note = note
         self.f0 = f0  # element [0] along the last axis is exactly zero
+        self.ext = ext  # ('lo'|'hi', key): smallest/largest element of the ascending array `key` (times a positive factor)
 
     def replace(self, **kw):
         n = AV.__new__(AV)
@@ -553,7 +554,7 @@ class AV(object):
                 None if self.const is _NOCONST else repr(self.const), self.expo,
                 None if self.items is None else tuple(i.key() for i in self.items),
                 None if self.elem is None else self.elem.key(), self.obj, self.tags, self.indef,
-                self.dmust, self.dmay, self.f0,
+                self.dmust, self.dmay, self.f0, self.ext, self.note if isinstance(self.note, str) and self.note.startswith("acc") else None,
                 None if self.dvals is None else tuple(sorted((k, v.key()) for k, v in self.dvals.items())),
                 None if self.ref is None else (self.ref[0], str(self.ref[1])))
 
@@ -678,6 +679,13 @@ def join_av(a, b):
         for k in set(a.dvals) | set(b.dvals):
             dvals[k] = join_av(a.dvals.get(k), b.dvals.get(k))
     sym = a.sym if (a.sym is not None and a.sym == b.sym) else None
+    if kind == K_LIST and (a.items == () or b.items == ()) and a.note != "range" and b.note != "range":
+        # an empty list is trivially ascending: the join keeps the other side's order facts
+        full = b if a.items == () else a
+        j = AV(kind=kind, dtype=dtype_join(a.dtype, b.dtype), origin=a.origin | b.origin, shape=None, alg=alg,
+               sign=sign_join(a.sign, b.sign), mono=full.mono, items=items, elem=elem, tags=a.tags | b.tags,
+               indef=a.indef or b.indef, note=full.note)
+        return j
     return AV(kind=kind, dtype=dtype_join(a.dtype, b.dtype), origin=a.origin | b.origin,
               shape=shape_join(a.shape, b.shape), sym=sym, alg=alg, sign=sign_join(a.sign, b.sign),
               mono=a.mono & b.mono, f0=a.f0 and b.f0, const=a.const if same_const else _NOCONST,
@@ -686,7 +694,8 @@ def join_av(a, b):
               tags=a.tags | b.tags, indef=a.indef or b.indef,
               dmust=(a.dmust & b.dmust) if (a.dmust is not None and b.dmust is not None) else None,
               dmay=(a.dmay | b.dmay) if (a.dmay is not None and b.dmay is not None) else None,
-              dvals=dvals, ref=a.ref if a.ref == b.ref else None)
+              dvals=dvals, ref=a.ref if a.ref == b.ref else None, ext=a.ext if a.ext == b.ext else None,
+              note=a.note if a.note == b.note else None)
 
 
 def weaken_av(v, pc):
